@@ -4,8 +4,10 @@
      <id> G|D|T <from|only> <cleanbad> <kinds|->                    Get / DecodeStream drain / typed decode
      <id> C <ncalls> <source items> | <layer table>                 table-driven layer stack over a scripted source
      <id> P <reads> <source items>                                  DecodeStream failing while the chain is built
+     <id> X <mode> <nil|malformed|other>                            decision of the shouldExit closure
      <id> S <ops...>                                                sink calls of a Writer program
      <id> K <from|only> <ops...>                                    verdict for every failing sink call
+     <id> L <from|only> <ops...|close ops...>                       does Writer.Close return the error of each call it makes
    Output: <id> <observation> *)
 open Wire
 
@@ -31,10 +33,18 @@ let letter o =
   | ErrFlow.ODifferent -> 'd'
   | ErrFlow.OOtherErr -> 'o'
 
+(* fm is the harness's name of the fault mode: from, only (failing calls return
+   (0, err)), half, one (part of the data with the error), full (all of it) *)
 let letters p fm =
-  let os = ErrFlow.outcomes p fm in
   let b = Buffer.create 64 in
-  Stdlib.List.iter (fun o -> Buffer.add_char b (letter o)) os;
+  (match fm with
+   | "from" | "only" ->
+     let os = ErrFlow.outcomes p (if fm = "only" then ErrFlow.OnlyK else ErrFlow.FromK) in
+     Stdlib.List.iter (fun o -> Buffer.add_char b (letter o)) os
+   | _ ->
+     let kd = if fm = "full" then ErrFlow.FKFull else ErrFlow.FKPartial in
+     Stdlib.List.iter (fun pr -> Buffer.add_char b (match pr with ErrFlow.PExact o -> letter o | ErrFlow.PSameOrIO -> '*'))
+       (ErrFlow.predictions_partial p kd));
   if Buffer.length b = 0 then "-" else Buffer.contents b
 
 (* groups "phase:kinds" must follow the given phase order, each at most once *)
@@ -105,6 +115,7 @@ let sop_of_string s =
   | 'G' -> Sink.FlushReturned
   | 'd' -> Sink.RawRead (n ())
   | 'a' -> Sink.RawReadAt (n ())
+  | 'c' -> Sink.SinkClose
   | _ -> failwith "bad sink op"
 
 let () =
@@ -119,7 +130,7 @@ let () =
                    bad_id = (bad = "id"); bad_idlen = (bad = "idlen"); bad_catd = (bad = "catd");
                    bad_cat = (bad = "cat"); bad_info = (bad = "info") } in
          let p = ErrFlow.open_prog (z_of_int (int_of_string mode)) t in
-         Printf.printf "%s %s %s\n" id (letters p (fmode_of fm)) (clean_string p))
+         Printf.printf "%s %s %s\n" id (letters p fm) (clean_string p))
     | id :: "Q" :: mode :: fm :: bad :: groups ->
       (match split_groups ["scan"; "xref"; "enc"; "catd"; "cat"; "info"] groups with
        | None -> Printf.printf "%s badtrace\n" id
@@ -128,7 +139,7 @@ let () =
                    q_cat = g "cat"; q_info = g "info";
                    q_bad_catd = (bad = "catd"); q_bad_cat = (bad = "cat"); q_bad_info = (bad = "info") } in
          let p = ErrFlow.seq_prog (z_of_int (int_of_string mode)) t in
-         Printf.printf "%s %s\n" id (letters p (fmode_of fm)))
+         Printf.printf "%s %s\n" id (letters p fm))
     | id :: (("G" | "D" | "T") as kind) :: fm :: cb :: [ks] ->
       let ks' = kinds_of_string ks in
       let bad = (cb = "1") in
@@ -136,10 +147,10 @@ let () =
         | "G" -> ErrFlow.get_prog ks' bad
         | "D" -> ErrFlow.drain_prog ks' bad
         | _ -> ErrFlow.decode_prog ks' bad in
-      let ls = letters p (fmode_of fm) in
+      let ls = letters p fm in
       let all_body = ks <> "-" && Stdlib.String.for_all (fun c -> c = 'b') ks in
       let ok =
-        if kind = "D" && all_body && not bad then begin
+        if kind = "D" && all_body && not bad && (fm = "from" || fm = "only") then begin
           let n = Stdlib.String.length ks in
           let cs = Chain.chain_outcomes (nat_of_int n) (fmode_of fm) in
           let b = Buffer.create 64 in
@@ -158,13 +169,36 @@ let () =
       let src = Stdlib.List.mapi rres_of_item items in
       let c = Chain.promote_run src (nat_of_int (int_of_string reads)) Res.Malformed in
       Printf.printf "%s %s\n" id (err_letter (Some c))
+    | id :: "L" :: fm :: ops ->
+      (* Writer.Close: the operations after the marker; the last is the Flush, or the
+         Flush and the sink's Close *)
+      let (before, rest) = split_bar [] ops in
+      let rest' = Stdlib.List.rev rest in
+      let (owns, rest') = (match rest' with "c" :: r -> (true, r) | r -> (false, r)) in
+      (match rest' with
+       | "F" :: body_rev ->
+         let vs = Sink.close_verdicts (Stdlib.List.map sop_of_string before)
+             (Stdlib.List.map sop_of_string (Stdlib.List.rev body_rev)) owns (fmode_of fm) in
+         let b = Buffer.create 64 in
+         Stdlib.List.iter (fun v -> Buffer.add_char b (if v then 'y' else 'n')) vs;
+         Printf.printf "%s %s\n" id (if Buffer.length b = 0 then "-" else Buffer.contents b)
+       | _ -> Printf.printf "%s close-does-not-end-with-flush\n" id)
+    | id :: "X" :: mode :: [cls] ->
+      (* the decision of shouldExit as read from the source vs ErrFlow.should_exit *)
+      let d = if cls = "nil" then "go-on" else
+          (match ErrFlow.should_exit (z_of_int (int_of_string mode)) (cls = "malformed") with
+           | ErrFlow.Exit -> "exit" | ErrFlow.Record -> "record" | ErrFlow.Ignore -> "ignore") in
+      Printf.printf "%s %s\n" id d
     | id :: "S" :: ops ->
+      let ops = Stdlib.List.filter (fun o -> o <> "|") ops in
       let calls = Sink.sink_calls (Stdlib.List.map sop_of_string ops) in
       let strs = Stdlib.List.map (fun c -> match c with
         | Sink.CWrite n -> "W" ^ string_of_n n | Sink.CSeek -> "S"
-        | Sink.CRead n -> "R" ^ string_of_n n | Sink.CReadAt n -> "A" ^ string_of_n n) calls in
+        | Sink.CRead n -> "R" ^ string_of_n n | Sink.CReadAt n -> "A" ^ string_of_n n
+        | Sink.CClose -> "C") calls in
       Printf.printf "%s %s\n" id (if strs = [] then "-" else Stdlib.String.concat " " strs)
     | id :: "K" :: fm :: ops ->
+      let ops = Stdlib.List.filter (fun o -> o <> "|") ops in
       let vs = Sink.surface_verdicts (Stdlib.List.map sop_of_string ops) (fmode_of fm) in
       let b = Buffer.create 64 in
       Stdlib.List.iter (fun v -> Buffer.add_char b (if v then 'y' else 'n')) vs;
